@@ -256,6 +256,68 @@ func genCycle(r *rng.R, c int) []hop {
 	return hs
 }
 
+// genLeaseIO: a client whose only traffic for several lease periods is
+// SEQUENCE compounds (bare, or PUTFH + READ/WRITE/SETATTR with its open
+// state ID), one every 0.3-0.9 lease, then one more READ; in 45 % of the
+// macros one READ stays parked in the file system while other requests
+// (which run enter()) move the clock 0.8-2.7 leases on.  Neither may cost
+// the client its registration: SEQUENCE holds the client for the compound
+// and release() stamps lastSeen (lease rule, SpecLease.v).
+func genLeaseIO(r *rng.R, c, nclients int, lease uint64) []hop {
+	const tag = "lease-io"
+	ow, f := r.Intn(3), r.Intn(3)
+	open := sidRef{K: "open", Ow: ow, F: f}
+	seq := func(ops []cop, plan []bool) hop {
+		return hop{K: "seq", C: c, Mode: "next", Slot: r.Intn(3), Cache: r.Chance(50), Ops: ops, Plan: plan, Tag: tag}
+	}
+	frac := func(lo, hi int) uint64 { // lo..hi percent of the lease
+		return lease * uint64(lo+r.Intn(hi-lo+1)) / 100
+	}
+	var hs []hop
+	if r.Chance(50) {
+		hs = append(hs, hop{K: "solo", C: c, What: "exid", Tag: tag}, hop{K: "solo", C: c, What: "cs", Tag: tag})
+	}
+	hs = append(hs, seq([]cop{{O: "putroot"}, {O: "open", Ow: ow, F: 1 + f, Acc: 3, How: 1, Claim: "null"}}, nil))
+	style := r.Intn(100)
+	n := 4 + r.Intn(5)
+	for k := 0; k < n; k++ {
+		hs = append(hs, hop{K: "adv", D: frac(30, 90), Tag: tag})
+		switch {
+		case style < 25: // bare SEQUENCE
+			hs = append(hs, seq(nil, nil))
+		case style < 40:
+			hs = append(hs, seq([]cop{{O: "putfh", F: f}, {O: "getattr"}}, nil))
+		default:
+			hs = append(hs, seq([]cop{{O: "putfh", F: f}, {O: pick(r, "read", "read", "write", "setattr"), Sid: &open}}, nil))
+		}
+		if nclients > 1 && r.Chance(15) {
+			// somebody else's request in between: enter() runs with the macro's client idle
+			hs = append(hs, hop{K: "seq", C: (c + 1) % nclients, Mode: "next", Slot: r.Intn(3), Ops: []cop{{O: "putroot"}, {O: "getfh"}}, Tag: tag})
+		}
+	}
+	if r.Chance(45) {
+		// a READ parked in the leaf that outlasts the lease
+		hs = append(hs, hop{K: "adv", D: frac(30, 90), Tag: tag})
+		hs = append(hs, seq([]cop{{O: "putfh", F: f}, {O: "read", Sid: &open}}, []bool{true}))
+		ticks := 2 + r.Intn(2)
+		for k := 0; k < ticks; k++ {
+			hs = append(hs, hop{K: "adv", D: frac(40, 90), Tag: tag})
+			if nclients > 1 && r.Chance(50) {
+				hs = append(hs, hop{K: "seq", C: (c + 1) % nclients, Mode: "next", Slot: r.Intn(3), Ops: []cop{{O: "putroot"}, {O: "getfh"}}, Tag: tag})
+			} else {
+				hs = append(hs, hop{K: "solo", C: c, What: "bind", Sess: -1, Tag: tag}) // BADSESSION, but enter() runs
+			}
+		}
+		hs = append(hs, hop{K: "resume", T: 0, Tag: tag})
+	}
+	hs = append(hs, hop{K: "adv", D: frac(30, 90), Tag: tag})
+	hs = append(hs, seq([]cop{{O: "putfh", F: f}, {O: "read", Sid: &open}}, nil))
+	if r.Chance(50) {
+		hs = append(hs, seq([]cop{{O: "putfh", F: f}, {O: "close", Sid: &open}}, nil))
+	}
+	return hs
+}
+
 func (area) Generate(r *rng.R, thorough bool, index int) json.RawMessage {
 	h := history{Lease: uint64(1000 * (1 + r.Intn(4))), Slots: uint32(1 + r.Intn(3)), MaxOps: uint32(4 + r.Intn(5))}
 	nclients := 1 + r.Intn(3)
@@ -289,6 +351,11 @@ func (area) Generate(r *rng.R, thorough bool, index int) json.RawMessage {
 			needReg[c] = false
 			h.Ops = append(h.Ops, hop{K: "solo", C: c, What: "exid"})
 			h.Ops = append(h.Ops, hop{K: "solo", C: c, What: "cs"})
+		}
+		if !vanished[c] && !needReg[c] && r.Chance(2) {
+			// lease macro: ~30 % of the histories contain at least one
+			h.Ops = append(h.Ops, genLeaseIO(r, c, nclients, h.Lease)...)
+			continue
 		}
 		if !vanished[c] && r.Chance(9) {
 			// share-count cycle, interleaved with other clients' requests
